@@ -46,8 +46,13 @@ End == IsEv("end") /\ E.nopen = E.nclose /\ UNCHANGED <<fs, disk, opens, closes>
 
 New == IsEv("new") /\ IF E.b = 0 THEN Ok(With(fs, E.o, Closed), disk, opens, closes)
                       ELSE Ok(With(fs, E.o, Opened(E.a, E.b)), IF Truncates(E.b) THEN [disk EXCEPT ![E.a] = <<>>] ELSE disk, opens + 1, closes)
-Open == IsEv("open") /\ Ok(With(fs, E.o, Opened(E.a, E.b)), IF Truncates(E.b) THEN [disk EXCEPT ![E.a] = <<>>] ELSE disk,
-                           opens + 1, IF H.open THEN closes + 1 ELSE closes)          \* reopening closes the old stream first
+Open == IsEv("open") /\
+  IF E.a = 9                                        \* a path that cannot be opened: IOError, and the File is closed afterwards -
+  THEN /\ E.exc = "IOError"                         \* the stream it had open before has been closed, once, and is not kept
+       /\ LET fn == With(fs, E.o, Closed) cn == IF H.open THEN closes + 1 ELSE closes IN
+             Common(fn, opens, cn) /\ fs' = fn /\ closes' = cn /\ UNCHANGED <<disk, opens>>
+  ELSE Ok(With(fs, E.o, Opened(E.a, E.b)), IF Truncates(E.b) THEN [disk EXCEPT ![E.a] = <<>>] ELSE disk,
+          opens + 1, IF H.open THEN closes + 1 ELSE closes)          \* reopening closes the old stream first
 Write == IsEv("write") /\
   IF ~H.open \/ (~H.wr /\ E.b > 0) THEN Refused
   ELSE /\ E.r = (IF E.b = 0 THEN 0 ELSE 1)
